@@ -501,6 +501,30 @@ class Program:
                     yield from fi.variants
 
 
+def returned_name(fn: ast.FunctionDef) -> str | None:
+    """Name of the local variable every `return` of fn (not of nested functions) returns, or None."""
+    names = set()
+
+    def walk(n):
+        for ch in ast.iter_child_nodes(n):
+            if isinstance(ch, (ast.FunctionDef, ast.AsyncFunctionDef, ast.Lambda, ast.ClassDef)):
+                continue
+            if isinstance(ch, ast.Return):
+                names.add(ch.value.id if isinstance(ch.value, ast.Name) else None)
+            walk(ch)
+
+    walk(fn)
+    names.discard(None) if len(names) > 1 else None
+    return next(iter(names)) if len(names) == 1 and None not in names else None
+
+
+def nested_function(fn: ast.FunctionDef, pred=lambda f: True) -> ast.FunctionDef | None:
+    for n in ast.walk(fn):
+        if isinstance(n, ast.FunctionDef) and n is not fn and pred(n):
+            return n
+    return None
+
+
 def src_of(node: ast.AST) -> str:
     return ast.unparse(node)
 
